@@ -151,20 +151,18 @@ func (it *MatchedBlockIterator) loadNextWindow() error {
 	fromAligned := windowStart - (windowStart % core.NumBlocksPerFilter)
 	toAligned := fromAligned + core.NumBlocksPerFilter - 1
 
-	// Falls into range of running filter
-	runningFrom, err := it.runningFilter.FromBlock()
+	// Falls into range of running filter. The window is matched under the running
+	// filter's lock: block storage and reverts update its bitsets concurrently.
+	isRunningWindow, err := it.runningFilter.WithWindow(
+		fromAligned,
+		func(window *core.AggregatedBloomFilter) error {
+			return it.matcher.getCandidateBlocksForFilterInto(window, it.currentBits)
+		},
+	)
 	if err != nil {
-		return fmt.Errorf("reading running filter from-block: %w", err)
+		return fmt.Errorf("getting candidate blocks for running filter: %w", err)
 	}
-	if fromAligned == runningFrom {
-		inner, err := it.runningFilter.InnerFilter()
-		if err != nil {
-			return fmt.Errorf("reading running filter inner filter: %w", err)
-		}
-		err = it.matcher.getCandidateBlocksForFilterInto(inner, it.currentBits)
-		if err != nil {
-			return fmt.Errorf("getting candidate blocks for running filter: %w", err)
-		}
+	if isRunningWindow {
 		it.currentWindowStart = fromAligned // set current window start absolute index
 		return nil
 	}
